@@ -439,6 +439,54 @@ func main() {
 			return true
 		})
 		fmt.Fprintf(&b, "def k8sFlusher : String := %q\n", flusher)
+		// the ORDER inside leaderElector.stopLeading: the leader table forgets this server before the callback runs
+		esl := mustFunc(ef, elFile, "leaderElector", "stopLeading")
+		posDelete, posCallback := token.NoPos, token.NoPos
+		ast.Inspect(esl.Body, func(x ast.Node) bool {
+			if c, ok := x.(*ast.CallExpr); ok {
+				fs := show(c.Fun)
+				if fs == "delete" && len(c.Args) > 0 && strings.HasSuffix(show(c.Args[0]), ".leaderInfo") && posDelete == token.NoPos {
+					posDelete = c.Pos()
+				}
+				if strings.HasSuffix(fs, ".callbacks.OnStoppedLeading") && posCallback == token.NoPos {
+					posCallback = c.Pos()
+				}
+			}
+			return true
+		})
+		fmt.Fprintf(&b, "def electorStopForgetsBeforeCallback : Bool := %v\n", posDelete != token.NoPos && posCallback != token.NoPos && posDelete < posCallback)
+		// the error path of rateLimiter.startLeading: every write of limitStoreMap in it, with the condition it is under
+		stl := mustFunc(rf, rlFile, "rateLimiter", "startLeading")
+		var errDeletes []string
+		ast.Inspect(stl.Body, func(x ast.Node) bool {
+			ifs, ok := x.(*ast.IfStmt)
+			if !ok || show(ifs.Cond) != "err != nil" {
+				return true
+			}
+			var walk func(n ast.Node, under string)
+			walk = func(n ast.Node, under string) {
+				ast.Inspect(n, func(y ast.Node) bool {
+					switch e := y.(type) {
+					case *ast.IfStmt:
+						if y != n {
+							walk(e.Body, under+" if "+show(e.Cond))
+							if e.Else != nil {
+								walk(e.Else, under+" else-of "+show(e.Cond))
+							}
+							return false
+						}
+					case *ast.CallExpr:
+						if id, ok := e.Fun.(*ast.Ident); ok && id.Name == "delete" && len(e.Args) > 0 && strings.HasSuffix(show(e.Args[0]), ".limitStoreMap") {
+							errDeletes = append(errDeletes, strings.TrimSpace(under)+": "+show(e))
+						}
+					}
+					return true
+				})
+			}
+			walk(ifs.Body, "")
+			return false
+		})
+		fmt.Fprintf(&b, "def startLeadingErrorPathDeletes : List String := %s\n", lib.LeanStrList(errDeletes))
 		b.WriteString("end KG.Gen.C13\n")
 		g.Emit("C13.lean", b.String())
 	})
